@@ -119,47 +119,95 @@ def rule_r1_model(ctx: Ctx) -> None:
 
 def rule_r1(ctx: Ctx) -> None:
     rule_r1_model(ctx)
-    for fname in (STACK,):
-        fn = ctx.fn(fname)
-        chains = dispatch_chains(fn)
-        if not chains:
-            raise AnalysisError(f"C01.R1: {fname} has no type-form dispatch chain (anchor changed)")
-        var, br = max(chains, key=lambda x: len(x[1]))
-        forms: dict[str, Branch] = {}
-        fallback_seen = False
-        for b in br:
-            f = b.form
-            if f == "else":
-                # nested chain inside the fallback (registered / alternatives / concrete)
-                for st in b.body:
-                    if isinstance(st, ast.If):
-                        from ..dispatch import chain
-                        for nb in chain(st):
-                            if nb.form == "alternatives" and not nb.negated:
-                                forms.setdefault("abstract", nb)
-                continue
-            if f == "alternatives" and not b.negated:
-                forms.setdefault("abstract", b)
-            elif f in ("bare-tuple", "bare-list"):
-                reads_params = any(isinstance(c, ast.Call) and call_name(c) in ("get_generic_parameters", "get_generic_parameter", "get_args")
-                                   for s in b.body for c in ast.walk(s))
-                kind = f.split("-")[1]
-                ctx.ob("C01.R1", fn, b.test, f"{fn.name}: '{norm(b.test)}' can hold for a type that has generic parameters", not reads_params,
-                       "" if not reads_params else
-                       f"the branch for '{norm(b.test)}' reads the type's generic parameters, but a type identical to the bare '{kind}' has "
-                       f"none and {kind}[X, ...] is never identical to '{kind}': generic {kind} types fall through to the concrete "
-                       f"fallback, which calls the alias with no arguments ({kind}[int, int]() == {'()' if kind == 'tuple' else '[]'})")
-            elif f.startswith("multi:") and not b.negated:
-                for part in f.split(":", 1)[1].split("+"):
-                    forms.setdefault("abstract" if part == "alternatives" else part, b)
-            elif not b.negated:
-                forms.setdefault(f, b)
-        for req in REQUIRED_FORMS:
-            ok = req in forms
-            ctx.ob("C01.R1", fn, forms[req].test if ok else fn.node, f"{fn.name} dispatches the {req} form before the concrete fallback", ok,
-                   "" if ok else f"no branch for {req} types: such a type reaches the fallback, which instantiates the typing alias / "
-                                 f"abstract class itself" + (" (a refined field gets its base type's default value, e.g. 0)" if req == "annotated" else ""))
-        ctx.extra.setdefault("dispatch_tables", {})[fn.name] = [b.form + ("(neg)" if b.negated else "") for b in br]
+    rule_r1_stack(ctx)
+
+
+def rule_r1_stack(ctx: Ctx) -> None:
+    """The stack mapper is interpreted (sa/rules/stackmodel.py) with scripted sequences of target types: what it builds for
+    each type form must be a value of that form made of values popped from the stacks of the declared types."""
+    from ..modelinterp import Budget, Sym, TypeV, UNKNOWN
+    from .stackmodel import BOOL, INT, kind_of, run_stack
+    fn = ctx.fn(STACK)
+    P = TypeV("class", "P")
+    ABS = TypeV("class", "Abs")
+    U = TypeV("union", "Union[int, bool]", (INT, BOOL))
+    L = TypeV("list", "list[int]", (INT,))
+    T = TypeV("tuple", "tuple[int, bool]", (INT, BOOL))
+    MH = Sym("MH")
+    ANN = TypeV("annotated", "Annotated[int, MH]", (INT,), MH)
+
+    def built(trace):
+        return [(e.args[0], e.args[1]) for e in trace if e.kind == "call" and e.name == "apply_constructor" and len(e.args) == 2]
+
+    def verdict(desc, start, script, fields, alts, mentioned, check):
+        try:
+            runs = run_stack(ctx, start, script, fields, alts, mentioned)
+        except Budget:
+            ctx.ob("C01.R1", fn, fn.node, desc, None, "too many interpretations")
+            return
+        ok: Optional[bool] = True
+        why = ""
+        for trace, rv, notes in runs:
+            o, w = check(trace, rv)
+            if o is False or (o is None and ok is True):
+                ok, why = o, w
+            if o is False:
+                break
+        ctx.ob("C01.R1", fn, fn.node, desc, ok, why)
+
+    # (a) a production from base values of the declared kinds
+    def chk_a(trace, rv):
+        b = [x for x in built(trace) if x[0] == P]
+        if not b:
+            return None, "the production is never built in the model"
+        kinds = [kind_of(v) for v in b[-1][1]] if isinstance(b[-1][1], list) else None
+        return (kinds == ["int", "bool"]), f"P(f1: int, f2: bool) is built from values of kinds {kinds}"
+    verdict("stack mapper: a production is built from one value per field, each popped from the stack of the field's declared type",
+            P, [INT, BOOL, P], {P: [("f1", INT), ("f2", BOOL)]}, {}, [INT, BOOL, P], chk_a)
+
+    # (b) a field never receives a value of another base type
+    def chk_b(trace, rv):
+        for t, args in built(trace):
+            if t == P and isinstance(args, list) and any(kind_of(v) != "int" for v in args):
+                return False, (f"with an empty int stack and a bool on the bool stack, P(f: int) is built from {args!r}: an int field receives a "
+                               f"value of another base type")
+        return True, ""
+    verdict("stack mapper: an int field is never served from the stack of another base type", P, [BOOL, P, P], {P: [("f", INT)]}, {}, [INT, BOOL, P], chk_b)
+
+    # (c) abstract symbol -> a built production of it
+    def chk_c(trace, rv):
+        if rv is UNKNOWN and any(e.kind == "raise" for e in trace):
+            return False, f"mapping fails ({[e.name for e in trace if e.kind == 'raise'][0]}) although the script provides every value"
+        return (rv == Sym("built")), f"the start symbol Abs is mapped to {rv!r}, expected the production built for it"
+    verdict("stack mapper: an abstract symbol is served by a value built for one of its productions", ABS, [INT, BOOL, P, ABS],
+            {P: [("f1", INT), ("f2", BOOL)]}, {ABS: [P]}, [INT, BOOL, P, ABS], chk_c)
+
+    # (d) union, (e) list, (f) tuple fields
+    for form, ty, script, want in (("union", U, [INT, U, P], lambda a: kind_of(a) in ("int", "bool")),
+                                   ("list", L, [INT, INT, L, P], lambda a: isinstance(a, list) and len(a) >= 1 and all(kind_of(x) == "int" for x in a)),
+                                   ("tuple", T, [INT, BOOL, T, P], lambda a: isinstance(a, list) and [kind_of(x) for x in a] == ["int", "bool"])):
+        def chk(trace, rv, ty=ty, want=want, form=form):
+            b = [x for x in built(trace) if x[0] == P]
+            wrong = [x for x in built(trace) if x[0] == ty]
+            if wrong:
+                return False, (f"{ty.name} is built through the concrete fallback as {ty.name}({', '.join(map(repr, wrong[0][1]))}) - the typing alias "
+                               f"called with {len(wrong[0][1])} arguments - instead of from its parts")
+            if not b:
+                return None, "the production is never built in the model"
+            a = b[-1][1][0] if isinstance(b[-1][1], list) and b[-1][1] else None
+            return bool(want(a)), f"a field of type {ty.name} receives {a!r}"
+        verdict(f"stack mapper: a {form} field receives a value of that form made from values of its parts", P, script, {P: [("f", ty)]}, {},
+                [INT, BOOL, ty, P], chk)
+
+    # (g) a refined type selected as target type
+    def chk_g(trace, rv):
+        wrong = [x for x in built(trace) if x[0] == ANN]
+        if wrong:
+            return False, (f"selecting {ANN.name} as target type reaches the concrete fallback, which calls the alias with {len(wrong[0][1])} arguments: "
+                           f"the base type's default value is pushed on the refined type's stack")
+        return True, ""
+    verdict("stack mapper: a refined type selected as target type is not built through the concrete fallback", P, [ANN, INT, P],
+            {P: [("f", INT)]}, {}, [INT, ANN, P], chk_g)
 
 
 # ------------------------------------------------------------------------------------------------ R2
